@@ -49,7 +49,9 @@ RULE = ("Hypothesis draws a pool spec - 1-2 x-intervals, one t-interval, 2-4 det
         "(default, what Solver.validation_step does) or a Solver-like step counter (each "
         "condition at most once per iteration value). Flags: own_dicts (every condition gets "
         "its own copy of the dict, so the other sharing channels are explored behind D14), "
-        "skip_d19 (periodic+static drops its dict), it_mode none/step/mixed. After the history "
+        "skip_d19 (periodic+static drops its dict), it_mode none/step/mixed, theme (in 3/7 of the "
+        "cases every kind except pinn/adaptive becomes PIDeepONet resp. Periodic so that several "
+        "of them meet). After the history "
         "every live condition is evaluated once more. Oracles after every op: real loss == "
         "isolated twin's loss (1e-6 rel); every dict handed to a constructor keeps its keys and "
         "the identical value objects; data/residual functions' default objects, DataSampler "
@@ -77,14 +79,16 @@ ASSUMPTIONS = [
     "pre-evaluated vs. on-the-fly data inside IntegroPINNCondition is not judged here (C04)",
     "losses are float32 results of identical operation sequences in the real and the twin "
     "condition: tolerance 1e-6 relative + 1e-9 absolute; two NaN losses count as equal",
-    "twin-mismatch / crash signatures carry the sharing channel that can explain them: shared-dict "
-    "only if another condition with a static sampler uses the same dict object (and was built "
-    "earlier when the judged condition is static itself), deeponet-shared-model-iteration-none "
-    "only for an iteration=None evaluation of a DeepONet condition whose model serves another "
-    "function set, deeponet-shared-fs for a function set serving another model; otherwise the "
-    "first of fn, sampler, domain, parameter, residual, model, fs, defaults that is shared",
+    "twin-mismatch / crash / periodic-side signatures carry the sharing channel that can explain "
+    "them (diagnosis for the signature only, never for the verdict): shared-dict if the dict object "
+    "is also used by a static-sampler condition (built earlier when the judged condition is static "
+    "itself) and the judged condition's table of wrapped / pre-evaluated data functions differs in "
+    "kind or content from its twin's; deeponet-stale-branch if DeepONet._forward_branch is about to "
+    "skip the branch evaluation (iteration == function_set.current_iteration_num) although the last "
+    "branch evaluation of that model was for another function set; otherwise the first of fn, "
+    "sampler, domain, parameter, residual, model, fs, ctor-defaults that is shared",
 ]
-BUDGET = {"quick": {"examples": 170, "workers": 4},
+BUDGET = {"quick": {"examples": 320, "workers": 4},
           "thorough": {"examples": 1500, "workers": 14}}
 
 KINDS = ["pinn", "mean", "ritz", "single", "adaptive", "hpm", "integro", "periodicA",
@@ -178,6 +182,7 @@ def strategy(tier):
         "own_dicts": _pick(False, False, False, True, True),
         "skip_d19": _pick(False, True, True),
         "it_mode": _pick("none", "step", "step", "mixed", "mixed"),
+        "theme": _pick(None, None, None, None, "deeponet", "deeponet", "periodic"),
         "rng": st.integers(0, 2 ** 31 - 1)})
 
 
@@ -225,6 +230,14 @@ def extra_cases(tier, seed):
     # periodic condition with a static sampler and data functions (D19)
     yield {"pool": _BASE_POOL, "own_dicts": True, "skip_d19": False, "it_mode": "none", "rng": rng,
            "ops": [_c("periodicB", sampler=0), _c("pinn", sampler=0), _e(0), _e(1)]}
+    # one DeepONet, function sets F0, F1, F0 in one training iteration (the Solver's loop order)
+    yield {"pool": _BASE_POOL, "own_dicts": True, "skip_d19": True, "it_mode": "step", "rng": rng,
+           "ops": [_c("deeponet", fs=0), _c("deeponet", fs=1), _c("deeponet", fs=0, sampler=1),
+                   _e(0, "step"), _e(1, "step"), _e(2, "step")]}
+    # one function set for two DeepONets
+    yield {"pool": _BASE_POOL, "own_dicts": True, "skip_d19": True, "it_mode": "step", "rng": rng,
+           "ops": [_c("deeponet", model=0), _c("deeponet", model=1), _e(0, "step"), _e(1, "step"),
+                   _e(0, "step"), _e(1, "step")]}
     # one DeepONet, two function sets, evaluated with the default iteration=None
     yield {"pool": _BASE_POOL, "own_dicts": True, "skip_d19": True, "it_mode": "none", "rng": rng,
            "ops": [_c("deeponet", fs=0), _c("deeponet", fs=1), _e(0), _e(1), _e(0)]}
@@ -534,6 +547,11 @@ class _Plan:
 def _plan(op, pool, spec, order):
     p = _Plan()
     kind = op["kind"]
+    theme = spec.get("theme")
+    if theme == "deeponet" and kind not in ("pinn", "adaptive", "deeponet"):
+        kind = "deeponet"      # several DeepONet conditions next to the PINN-type ones
+    elif theme == "periodic" and kind not in ("pinn", "adaptive", "periodicA", "periodicB"):
+        kind = "periodicB" if op["model"] % 2 else "periodicA"
     si = op["sampler"] % pool.n("sampler")
     if kind == "adaptive":
         statics = [j for j in range(pool.n("sampler")) if pool.sampler_spec(j)["static"]]
@@ -673,17 +691,21 @@ def _attribution(c, conds, stale_branch=False):
     """The sharing channel that can explain a deviation of condition c from its twin."""
     others = [o for o in conds if o is not c]
     dkey = next((k for k in c.plan.uses if k[0] == "dict"), None)
-    if dkey is not None and any(dkey in o.plan.uses and o.plan.static
-                                and (not c.plan.static or o.order < c.order) for o in others):
+    if dkey is not None and any(dkey in o.plan.uses for o in others):
         differ = _tables_differ(c.real, c.twin) if getattr(c, "real", None) is not None else None
         if differ is None or differ:
-            return "shared-dict"
+            # D14 pattern: a static-sampler condition pre-evaluated into the shared dict
+            both = "+deeponet-stale-branch" if c.plan.kind == "deeponet" and stale_branch else ""
+            if any(dkey in o.plan.uses and o.plan.static
+                   and (not c.plan.static or o.order < c.order) for o in others):
+                return "shared-dict" + both
+            return "shared-dict-without-static-writer" + both
     if c.plan.kind == "deeponet" and stale_branch:
         return "deeponet-stale-branch"
     chans = set()
     for o in others:
         chans |= _shares(c.plan, o.plan)
-    for ch in CHANNELS:
+    for ch in CHANNELS[1:]:      # a shared dict whose tables are intact explains nothing
         if ch in chans:
             return "shared-" + ch if ch != "defaults" else "shared-ctor-defaults"
     return "nothing-shared"
@@ -711,7 +733,7 @@ def _close(a, b):
 def run_case(spec, ctx):
     pool = _Pool(spec, audit=True)
     conds = []                 # every construct attempt that ran library code (alive or dead)
-    classes = {"it:" + spec["it_mode"]}
+    classes = {"it:" + spec["it_mode"], "theme:" + str(spec.get("theme"))}
     if spec.get("own_dicts"):
         classes.add("own-dicts")
     reported = set()
@@ -841,10 +863,13 @@ def run_case(spec, ctx):
         if p.static:
             if c.first is None:
                 c.first = a
+                # a first value that already deviates from the twin carries its own explanation
+                c.first_attr = attr if not _close(a, b) else None
             elif not _close(a, c.first):
-                feat = "static" if attr.startswith("shared-") or attr == "nothing-shared" \
-                    else "static|" + attr
-                once("repeat-mismatch", feat,
+                special = ("shared-dict", "deeponet-stale-branch",
+                           "shared-dict+deeponet-stale-branch")
+                why = attr if attr in special else c.first_attr if c.first_attr in special else None
+                once("repeat-mismatch", "static" if why is None else "static|" + why,
                      f"op {pos}: condition #{c.order} ({p.kind}, static sampler) returned {c.first!r} "
                      f"on its first and {a!r} on evaluation {c.n_eval} without an optimisation step")
         if p.family == "periodic" and p.has_data:
